@@ -11,3 +11,21 @@ package j5reflect
 
 //@ func (*leafMapField).setKey
 //@   requires valid: pvValid(val)
+
+//@ func newProtoPair
+//@   requires msg != nil && msgValid(msg) && field != nil
+//@   ensures result != nil
+
+//@ func (*protoPair).getMutableValue
+//@   ensures result1 == nil ==> pvValid(result0)
+
+//@ func newLeafArrayField
+//@   requires value != nil
+
+// buildValue walks the property's proto path; the path has at least one element on this branch and
+// the final step indexes the one remaining element.
+//@ func (*propSet).buildValue
+//@   requires fs != nil && prop != nil && (fs.value == nil || msgValid(fs.value))
+//@   requires forall i int :: 0 <= i && i < len(prop.protoPath) ==> prop.protoPath[i] != nil
+//@   loop 0 invariant len(walkPath) >= 1 && walkMessage != nil && msgValid(walkMessage)
+//@   loop 0 invariant forall i int :: 0 <= i && i < len(walkPath) ==> walkPath[i] != nil
